@@ -45,12 +45,13 @@ public:
 	std::string pubfile_bytes;              // served at pub_url (C04)
 	long pub_http_code = 200;
 	int pub_fetches = 0;
+	bool fault_fired = false;               // a transport fault of the armed script actually hit the call in progress
 	CallEnv env;                            // script for the call in progress
 	std::vector<ServedRequest> served;
 	void setup(int ver, int alg, size_t keylen, size_t loginlen, bool aggr_http, bool ext_http);
 	void install_hooks();
 	void attach(KSI_CTX *ctx);              // KSI_CTX_setAggregator / setExtender / publications URL
-	void arm(const CallEnv &e) { env = e; env.armed = true; progress_ = 0; replied_ = false; }
+	void arm(const CallEnv &e) { env = e; env.armed = true; progress_ = 0; replied_ = false; fault_fired = false; }
 	void disarm() { env = CallEnv(); }
 private:
 	size_t progress_ = 0;
